@@ -102,6 +102,7 @@ def numCmp (op : CmpOp) (a b : Val) : Except Exc (Option Ordering) :=
   match a.numParts, b.numParts, a, b with
   | _, _, .complex _ _, _ => .error err
   | _, _, _, .complex _ _ => .error err
+  | _, _, .sub _ (.complex _ _), _ => .error err
   | some (x, _), some (y, _), _, _ => .ok (Flt.cmp x y)
   | _, _, _, _ => .error err
 
@@ -120,6 +121,7 @@ def CmpOp.holds : CmpOp → Option Ordering → Bool
 /-- `len(v)`; scalars without a length raise `TypeError`. -/
 def pyLen : Val → Except Exc Nat
   | .str s | .bytes s | .bytearray s => .ok s.length
+  | .sub _ (.str s) | .sub _ (.bytes s) | .sub _ (.bytearray s) => .ok s.length
   | .list xs | .tuple xs | .set xs | .frozenset xs | .deque xs => .ok xs.length
   | .dict kvs | .mapOf _ kvs => .ok kvs.length
   | v => .error { cls := .typeError, msg := "TypeError: object of type '" ++ v.tpName ++ "' has no len()" }
@@ -140,6 +142,8 @@ def isFiniteV (E : Ext) (v : Val) : Except Exc Bool :=
   match v with
   | .bool _ | .int _ => .ok true
   | .float f => .ok f.isFinite
+  | .sub _ (.bool _) | .sub _ (.int _) => .ok true
+  | .sub _ (.float f) => .ok f.isFinite
   | .opaque "Decimal" _ | .opaque "Fraction" _ =>
     match E.call "isfinite" v with
     | .ok (.bool r) => .ok r
